@@ -1041,6 +1041,12 @@ func (w *World) lenFromDef(v ssa.Value, lib libFacts, fn *ssa.Function, site ssa
 				continue
 			}
 			pred := x.Block().Preds[i]
+			// an alternative that cannot be the one in use at the site: a sibling φ of the same block (the
+			// error result of an expanded helper) is tested against nil on the way to the site, and this
+			// alternative's sibling value contradicts the test
+			if site != nil && w.phiEdgeExcluded(fn, x, i, site) {
+				continue
+			}
 			// the alternative's length, strengthened by the guards that hold at the end of its predecessor
 			l, h, _ := w.lenFromDef(e, lib, fn, nil)
 			if len(pred.Instrs) > 0 {
@@ -1159,4 +1165,67 @@ func (w *World) lenIntervalAtEdge(fn *ssa.Function, v ssa.Value, a, b *ssa.Basic
 		}
 	}
 	return res
+}
+
+
+// phiEdgeExcluded: alternative i of φ x cannot be the value at site, because every path from the φ's
+// block to the site takes a nil / non-nil edge on a sibling φ y of the same block whose alternative i
+// is a constant nil (or is known non-nil) the other way round.
+func (w *World) phiEdgeExcluded(fn *ssa.Function, x *ssa.Phi, i int, site ssa.Instruction) bool {
+	for _, ins := range x.Block().Instrs {
+		y, ok := ins.(*ssa.Phi)
+		if !ok {
+			break
+		}
+		if y == x || i >= len(y.Edges) {
+			continue
+		}
+		var wantNil bool
+		switch {
+		case isNilConst(y.Edges[i]):
+			wantNil = false // excluded if the site is only reached under y != nil
+		case knownNonNilAt(fn, y.Edges[i], x.Block().Preds[i]) || producesNonNil(y.Edges[i]):
+			wantNil = true // excluded if the site is only reached under y == nil
+		default:
+			continue
+		}
+		first := x.Block().Instrs[0]
+		hit := reach0(fn, first, func(j ssa.Instruction) bool { return j == site }, nil, func(a, b *ssa.BasicBlock) bool {
+			return nilnessEdge(a, b, func(v ssa.Value) bool { return v == ssa.Value(y) }, wantNil)
+		}, false)
+		if hit == nil && site.Block() != x.Block() {
+			return true
+		}
+	}
+	return false
+}
+
+// producesNonNil: the value is the result of a repo error constructor (every return of the callee is a
+// non-nil value) or an explicit interface construction.
+func producesNonNil(v ssa.Value) bool { return producesNonNil0(v, 0) }
+
+func producesNonNil0(v ssa.Value, depth int) bool {
+	if depth > 3 {
+		return false
+	}
+	switch x := v.(type) {
+	case *ssa.MakeInterface:
+		return true
+	case *ssa.Call:
+		switch calleeName(x) {
+		case "fmt.Errorf", "errors.New", "errors.Join":
+			return true
+		}
+		g := staticCallee(x)
+		if g == nil || g.Blocks == nil {
+			return false
+		}
+		for _, ret := range returnsOf(g) {
+			if len(ret.Results) != 1 || !producesNonNil0(ret.Results[0], depth+1) {
+				return false
+			}
+		}
+		return true
+	}
+	return false
 }
